@@ -129,6 +129,51 @@ async fn tomb_other_version(net: &Net) -> Case {
     r.case("C03Case", "tomb_other_version", f, json!({}))
 }
 
+/// two deletion records of one row naming different versions (the more recent one names the older
+/// version), then the pulls that let a peer holding both records meet the newer version again
+async fn two_versions(net: &Net) -> Case {
+    let mut r = Runner::new(net, 3).await;
+    two_versions_history(&mut r, &[1], 1, 0, true, false, &[(1, 0), (1, 2)]).await;
+    let f = r.settle(T0 + 2 * DAY, 6).await;
+    r.case("C03Case", "two_versions", f, json!({}))
+}
+
+/// generated: deletions of different versions of one row on different peers (the update was seen by
+/// only some peers), either record the more recent one, same day or next day, then a random pull order
+async fn two_versions_case(net: &Net, rng: &mut Rng) -> Case {
+    let n = 3 + rng.below(2) as usize;
+    let mut r = Runner::new(net, n).await;
+    let updater = n - 1;
+    // who has seen the update (besides the updater): a non-empty proper subset of the others
+    let others: Vec<usize> = (0..updater).collect();
+    let k = 1 + rng.below(others.len() as u64 - 1) as usize;
+    let mut seen: Vec<usize> = others.clone();
+    while seen.len() > k { let i = rng.below(seen.len() as u64) as usize; seen.remove(i); }
+    let unseen: Vec<usize> = others.iter().cloned().filter(|p| !seen.contains(p)).collect();
+    let del_new = if rng.chance(1, 3) { updater } else { *rng.pick(&seen) };
+    let del_old = *rng.pick(&unseen);
+    let old_later = rng.chance(2, 3);
+    let next_day = rng.chance(1, 3);
+    let mut order = vec![];
+    for _ in 0..(2 + rng.below(6)) {
+        let dst = rng.below(n as u64) as usize;
+        let src = (dst + 1 + rng.below(n as u64 - 1) as usize) % n;
+        order.push((dst, src));
+    }
+    two_versions_history(&mut r, &seen, del_new, del_old, old_later, next_day, &order).await;
+    let f = r.settle(T0 + 3 * DAY, 6).await;
+    r.case("C03Case", "two_versions_gen", f, json!({"seen": seen, "del_new": del_new, "del_old": del_old, "old_later": old_later, "next_day": next_day, "order": order}))
+}
+
+/// many rows and deletion records on one day served in small answers (several batches per query)
+async fn batching(net: &Net) -> Case {
+    let mut r = Runner::new(net, 3).await;
+    batching_history(&mut r, 60, 55).await;
+    let f = r.settle(T0 + DAY, 4).await;
+    net.serve_buffer.store(0, std::sync::atomic::Ordering::SeqCst);
+    r.case("C03Case", "batching", f, json!({}))
+}
+
 async fn random_case(net: &Net, rng: &mut Rng, deletions: bool) -> Case {
     let n = 2 + rng.below(3) as usize;
     let mut r = Runner::new(net, n).await;
@@ -173,6 +218,12 @@ async fn main() {
     out.push(shortcut(&net).await);
     out.push(stale_log(&net).await);
     out.push(tomb_other_version(&net).await);
+    out.push(two_versions(&net).await);
+    out.push(batching(&net).await);
+    for _ in 0..scale(6, 150) {
+        let mut r = rng.fork();
+        out.push(two_versions_case(&net, &mut r).await);
+    }
     for sd in [false, true] { for first in [0, 1] { out.push(delete_vs_update(&net, sd, first).await); } }
     for i in 0..scale(36, 700) {
         let mut r = rng.fork();
